@@ -560,6 +560,31 @@ pub fn run(repo: &str, unit_path: &str, canary: bool) -> std::result::Result<Run
                     src_line = line;
                     rewrites.push(json!({"rule": "R12", "in": target, "file": file, "src_line": line,
                         "before": format!("then-block of `if let {pattxt} = ..` in {target}"), "after": "lifted into a function of its own (the bound variable and the locals it uses become parameters)"}));
+                } else if let Some(pattxt) = o.get("forbody") {
+                    // R12c: the body of a `for <pattern> in ..` loop lifted into a function of its own (`forbody=<pattern>`): what one
+                    // iteration does to the element it is given. Dropped: the loop itself (which elements are visited, in which order).
+                    let want = norm_str(pattxt).ok_or(format!("bad forbody= text in {target}"))?;
+                    struct FindFor { want: String, found: Option<(Block, usize)> }
+                    impl<'ast> syn::visit::Visit<'ast> for FindFor {
+                        fn visit_expr_for_loop(&mut self, e: &'ast syn::ExprForLoop) {
+                            if self.found.is_none() && norm(&e.pat.to_token_stream()) == self.want {
+                                self.found = Some((e.body.clone(), e.for_token.span.start().line));
+                            }
+                            syn::visit::visit_expr_for_loop(self, e);
+                        }
+                    }
+                    let mut ff = FindFor { want, found: None };
+                    syn::visit::Visit::visit_block(&mut ff, &body);
+                    let (mut blk, line) = ff.found.ok_or(format!("lost-anchor forbody `{pattxt}` in {target}"))?;
+                    if let Some(t) = o.get("tail") {
+                        let te: Expr = parse_str(t).map_err(|e| format!("bad tail= in {target}: {e}"))?;
+                        blk.stmts.push(Stmt::Expr(te, None));
+                    }
+                    body = blk;
+                    orig_text = norm(&body.to_token_stream());
+                    src_line = line;
+                    rewrites.push(json!({"rule": "R12", "in": target, "file": file, "src_line": line,
+                        "before": format!("body of `for {pattxt} in ..` in {target}"), "after": "lifted into a function of its own (the loop variable and the locals it uses become parameters; the loop around it is dropped)"}));
                 } else {
                     cl.visit_block_mut(&mut body);
                     for n in closure_repl.keys() {
@@ -647,7 +672,7 @@ pub fn run(repo: &str, unit_path: &str, canary: bool) -> std::result::Result<Run
                     sigtxt.push_str(&format!(" {}", wc.to_token_stream()));
                 }
                 // a lifted closure has no signature of its own: the template supplies it on a contract line `sig: <text>`
-                if o.contains_key("closure") || o.contains_key("arm") || o.contains_key("iflet") {
+                if o.contains_key("closure") || o.contains_key("arm") || o.contains_key("iflet") || o.contains_key("forbody") {
                     let pos = contract.iter().position(|l| l.trim_start().starts_with("sig:")).ok_or("closure= needs a `sig: fn name(..) -> (r: T)` line")?;
                     let l = contract.remove(pos);
                     sigtxt = l.trim_start()["sig:".len()..].trim().to_string();
@@ -735,6 +760,7 @@ pub fn run(repo: &str, unit_path: &str, canary: bool) -> std::result::Result<Run
                             rec["emitted_as"] = json!(format!("{tyname}::{newname}"));
                             if let Some(a) = o.get("arm") { rec["lifted"] = json!(format!("match arm `{a}`")); }
                             if let Some(a) = o.get("iflet") { rec["lifted"] = json!(format!("then-block of `if let {a}`")); }
+                            if let Some(a) = o.get("forbody") { rec["lifted"] = json!(format!("body of `for {a} in ..`")); }
                             if let Some(c) = o.get("closure") { rec["lifted"] = json!(format!("closure #{c}")); }
                         }
                     }
